@@ -358,6 +358,27 @@ fn build(tier: Tier) -> Vec<Scenario> {
                             fails.add(Some(Fail::new(format!("c05-{name2}-iterations"), format!("{name2}: history {:?}: {} iterations out, {} in; output {:?}", h, its.len(), n_iters, full))));
                             return;
                         }
+                        // FlushBatch is transparent: the same history with a FlushBatch (what a block
+                        // input reports when its timed receive expires) before every element gives
+                        // the same output
+                        {
+                            let mut sc2: Vec<El<(i64, i64)>> = vec![];
+                            for e in to_script(h, timestamped) {
+                                // (before the element: a script must not end with a FlushBatch, the
+                                // source would close the iteration once more)
+                                sc2.push(StreamElement::FlushBatch);
+                                sc2.push(e);
+                            }
+                            let strip = |v: &Vec<Norm>| -> Vec<Norm> { v.iter().filter(|e| e.0 != crate::kit::K_FB).cloned().collect() };
+                            let with_fb = strip(&run(sc2));
+                            let plain = strip(&full);
+                            if with_fb != plain {
+                                fails.add(Some(Fail::new(
+                                    format!("c05-{name2}-flushbatch-not-transparent"),
+                                    format!("{name2}: history {:?}: with a FlushBatch before every element the output is {:?}, without {:?}", h, with_fb, plain),
+                                )));
+                            }
+                        }
                         // differential: iteration k>=2 alone on a fresh operator
                         let mut start = 0;
                         let mut k = 0;
